@@ -14,3 +14,11 @@ for l in open('/verif/properties.jsonl'):
             d['id'], d['title'], d['statement'], d['quantifier']['text'], d.get('why_tests_cant', ''), json.dumps(d.get('anchors', {}), indent=1)))
 PY
 echo "prepared /tmp/seedtools"
+# ideas already used per property (from the seeded/ metadata), for later rounds
+/venv/bin/python - <<'PY'
+import json, os, glob
+for p in sorted(glob.glob('/verif/seeded/*/meta.json')):
+    d = json.load(open(p)); pid = d['property']
+    with open('/tmp/seedtools/avoid-%s.txt' % pid, 'a') as f:
+        f.write('- %s\n' % (d.get('change') or os.path.basename(os.path.dirname(p))))
+PY
